@@ -100,6 +100,7 @@ type vCM struct {
 	added    [][]types.Block
 	addedV2  []types.Block
 	realTip  *types.ChainIndex // when the sync round starts below the node's tip
+	partial  []types.V2Transaction // pool content offered for outline completion
 	addedStates []consensus.State
 	poolTxns int
 	poolErr  bool
@@ -157,7 +158,16 @@ func (c *vCM) AddV2PoolTransactions(basis types.ChainIndex, txns []types.V2Trans
 	return false, nil
 }
 func (c *vCM) TransactionsForPartialBlock(missing []types.Hash256) ([]types.Transaction, []types.V2Transaction) {
-	return nil, nil
+	// what the node's pool holds among the requested hashes
+	var out []types.V2Transaction
+	for _, t := range c.partial {
+		for _, h := range missing {
+			if t.MerkleLeafHash() == h {
+				out = append(out, t)
+			}
+		}
+	}
+	return nil, out
 }
 
 type vPM struct{ bans []string }
